@@ -232,6 +232,13 @@ func (r *run) consumer(wg *sync.WaitGroup) {
 				}
 				continue
 			}
+			if len(b) == 0 {
+				// non-nil but empty: the depth test passed although the slice held nothing (the
+				// stress never enqueues empty chunks). No byte is wrong, but the model says this
+				// cannot happen (Conc.CInv at `lock`): reported as a model mismatch.
+				r.fail("conc-model-mismatch:dequeueall-passed-depth-test-on-empty-slice", "DequeueAll returned a non-nil empty slice: the unlocked depth test saw a non-zero depth while no chunk was held")
+				return
+			}
 			cs, ok := splitChunks(b)
 			if !ok {
 				r.fail("conc-corrupt", "DequeueAll returned bytes that are not a sequence of whole chunks: %s", describe(b))
